@@ -185,7 +185,12 @@ def PStatus.rank : PStatus → Nat
   | .unchanged => 0 | .update => 1 | .rescore => 2
 
 /-- may the results for a pattern whose last atom is `a` be reused when text is appended? -/
-def lastAtomAllowsUpdate (a : Atom) : Bool := !a.negative
+def lastAtomAllowsUpdate (a : Atom) : Bool :=
+  !a.negative && a.kind != .postfix && a.kind != .exact &&
+  (match a.needle.getLast? with
+   | some 92 => false                 -- text ended in a backslash
+   | some 36 => a.kind == .fuzzy      -- escaped `\$` at the end
+   | _ => true)
 
 /-- `MultiPattern::reparse`'s status decision for one column -/
 def reparseStatus (old : PStatus) (oldAtoms : List Atom) (append : Bool) : PStatus :=
